@@ -41,6 +41,7 @@ def Rv(x):
 
 
 FMUL = z3.Function('fmul', z3.RealSort(), z3.RealSort(), z3.RealSort())
+FDIV = z3.Function('fdiv', z3.RealSort(), z3.RealSort(), z3.RealSort())      # quotient by a non-constant, for units that abstract division (uf_div)
 
 # uninterpreted transcendental functions (axioms are added by specs that need them)
 UF = {}
@@ -137,7 +138,7 @@ def math_call(ex, st, name, args):
             k = ys.numerator_as_long()
             r = z3.RealVal(1) if k == 0 else x
             for _ in range(k - 1):
-                r = r * x
+                r = ex.fmul(r, x)       # real product, or the uninterpreted product in units that abstract multiplication
             return RealV(r, DOUBLE)
         val = uf('pow', 2)(x, y)
         st.assume(z3.And(z3.Implies(x >= 0, val >= 0), z3.Implies(x > 0, val > 0)))     # libm axioms (DESIGN §8.2)
